@@ -43,7 +43,7 @@ package service
 // new checkpoint is the end of the log including what this request appends (C05, C06).
 //@ func (*PushPullHandler).pullOperations
 //@   mode wrap
-//@   props C05 C06 C07
+//@   props C05 C06 C07 C08
 //@   requires handlerWF(its) && its.currentCP != nil && its.datatypeDoc != nil && its.resPushPullPack != nil && its.gotPushPullPack.CheckPoint != nil
 //@   requires[log-invariant] its.datatypeDoc.Sseq.End == G.stored && G.stored < 4611686018427387904 && its.gotPushPullPack.CheckPoint.Sseq < 4611686018427387904
 //@   requires[after-push] !its.isReadOnly ==> its.currentCP.Sseq == its.datatypeDoc.Sseq.End + len(its.pushingOperations)
@@ -55,6 +55,7 @@ package service
 //@   ensures[pulled-in-log-order] result == nil && its.clientDoc.Type != model.ClientType_VOLATILE && its.datatypeDoc.Sseq.Begin <= its.gotPushPullPack.CheckPoint.Sseq + 1 && !its.gotOption.HasSnapshotBit() ==> (forall i int :: 0 <= i && i < len(its.resPushPullPack.Operations) ==> its.resPushPullPack.Operations[i].$sseq == its.gotPushPullPack.CheckPoint.Sseq + 1 + i)
 //@   ensures[checkpoint-is-new-end] result == nil && !its.isReadOnly ==> its.currentCP.Sseq == G.stored + len(its.pushingOperations)
 //@   ensures[readonly-within-log] its.isReadOnly ==> its.currentCP.Sseq <= G.stored
+//@   ensures[a-failed-read-of-the-log-is-an-error-to-the-client] G.readCount > old(G.readCount) && G.readFailed ==> result != nil
 //@   ensures[cseq-untouched] its.currentCP.Cseq == old(its.currentCP.Cseq)
 //@   ensures[request-untouched] its.gotPushPullPack.CheckPoint.Sseq == old(its.gotPushPullPack.CheckPoint.Sseq)
 //@   modifies model.CheckPoint.Sseq, model.PushPullPack.Operations, G:lastFrom
